@@ -13,6 +13,9 @@ from vf import dnsshim, symx
 from vf.ob import Concrete, Symx
 from vf.refs import dnsref
 
+# decoding must always terminate: a single path that does not return within 2 minutes is reported (hang:path-timeout)
+symx.PATH_TIMEOUT_S = min(symx.PATH_TIMEOUT_S, 120)
+
 LEVEL = "model_checking"
 ASSUMPTIONS = [
     "struct.Struct / struct.pack / struct.unpack replaced by the big-endian models of vf.symbytes (validated against struct)",
